@@ -190,6 +190,22 @@ m('M114-verify-recovers', ['C20'], (V, "func (c *VerifierChip) Verify(", "func s
 m('M115-sub-constant-fastpath', ['C07', 'C05'], (B, "func (p *Chip) Sub(a Variable, b Variable) Variable {\n", "func (p *Chip) Sub(a Variable, b Variable) Variable {\n\tif v, ok := p.api.Compiler().ConstantValue(a.Limb); ok && v.Sign() == 0 {\n\t\treturn NewVariable(p.api.Sub(MODULUS, b.Limb))\n\t}\n"))
 m('M116-productaccs-aliasing-append', ['C16'], (P, "\tproductAccs := make([]gl.QuadraticExtensionVariable, 0, numPartProds+2)\n\tproductAccs = append(productAccs, openings.PlonkZs[challengeNum])\n", "\tproductAccs := openings.PlonkZs[challengeNum : challengeNum+1]\n"))
 
+# ---- round 4: absorb tiling, Merkle digest chain, hint bodies
+m('M117-gl-sponge-bound-off-by-one', ['C09'], (PG, "\tfor i := 0; i < len(input); i += SPONGE_RATE {", "\tfor i := 0; i < len(input)-1; i += SPONGE_RATE {"))
+m('M118-bn-sponge-bound-off-by-one', ['C10', 'C12'], (PB, "\tfor i := 0; i < len(input); i += BN254_SPONGE_RATE * 3 {", "\tfor i := 0; i < len(input)-1; i += BN254_SPONGE_RATE * 3 {"))
+m('M119-bn-sponge-permutation-count', ['C10', 'C12'], (PB, "\tfor i := 0; i < len(input); i += BN254_SPONGE_RATE * 3 {\n", "\tnumLimbs := (len(input) + 1) / 3\n\tnumPermutations := (numLimbs + BN254_SPONGE_RATE - 1) / BN254_SPONGE_RATE\n\tfor p := 0; p < numPermutations; p++ {\n\t\ti := p * BN254_SPONGE_RATE * 3\n"))
+m('M120-bn-sponge-narrow-window', ['C10', 'C12'], (PB, "\t\tendI := c.min(len(input), i+BN254_SPONGE_RATE*3)", "\t\tendI := c.min(len(input), i+BN254_SPONGE_RATE*3-1)"))
+m('M121-bn-limb-stride', ['C10', 'C12'], (PB, "j, stateIdx = j+3, stateIdx+1 {", "j, stateIdx = j+4, stateIdx+1 {"))
+m('M122-merkle-skip-level-on-zero-sibling', ['C12'], (F, "\t\tcurrentDigest = state[0]\n", "\t\tisPadding := f.api.IsZero(sibling)\n\t\tcurrentDigest = f.api.Select(isPadding, currentDigest, state[0])\n"))
+m('M123-merkle-final-digest-selected', ['C12'], (F, "\tf.api.AssertIsEqual(currentDigest, merkleCapEntry)", "\tf.api.AssertIsEqual(f.api.Select(f.api.IsZero(leafIndexBits[0]), currentDigest, merkleCapEntry), merkleCapEntry)"))
+m('M124-reducehint-single-limb-shortcut', ['C02', 'C07'], (B, "\tinput := inputs[0]\n\tquotient := new(big.Int).Div(input, MODULUS)", "\tinput := inputs[0]\n\tif input.IsUint64() {\n\t\tresults[0] = new(big.Int)\n\t\tresults[1] = new(big.Int).Set(input)\n\t\treturn nil\n\t}\n\tquotient := new(big.Int).Div(input, MODULUS)"))
+m('M125-inversehint-modinverse-nil', ['C07'], (B, "\tinputGl := goldilocks.NewElement(input.Uint64())\n\tresultGl := goldilocks.NewElement(0)\n\n\t// Will set resultGL if inputGL == 0\n\tresultGl.Inverse(&inputGl)\n\n\tresult := big.NewInt(0)\n\tresults[0] = resultGl.BigInt(result)\n", "\t_ = goldilocks.NewElement\n\tresults[0] = new(big.Int).ModInverse(input, MODULUS)\n"))
+m('M126-splitlimbshint-unchecked-input', ['C02', 'C07'], (B, "\tinput := inputs[0]\n\n\tif input.Cmp(MODULUS) == 0 || input.Cmp(MODULUS) == 1 {\n\t\treturn fmt.Errorf(\"input is not in the field\")\n\t}\n\n\ttwo_32", "\tinput := inputs[0]\n\n\tif input.Cmp(MODULUS) == 1 && input.BitLen() > 65 {\n\t\treturn fmt.Errorf(\"input is not in the field\")\n\t}\n\n\ttwo_32"))
+
+m('M127-fri-fold-skipped-on-guard', ['C13'], (F, "\t\toldEval = f.computeEvaluation(\n\t\t\tsubgroupX,\n\t\t\txIndexWithinCosetBits,\n\t\t\tarityBits,\n\t\t\tevals,\n\t\t\tchallenges.FriBetas[i],\n\t\t)\n", "\t\tfolded := f.computeEvaluation(\n\t\t\tsubgroupX,\n\t\t\txIndexWithinCosetBits,\n\t\t\tarityBits,\n\t\t\tevals,\n\t\t\tchallenges.FriBetas[i],\n\t\t)\n\t\tskip := f.api.IsZero(evals[0][0].Limb)\n\t\toldEval = gl.QuadraticExtensionVariable{\n\t\t\tgl.NewVariable(f.api.Select(skip, oldEval[0].Limb, folded[0].Limb)),\n\t\t\tgl.NewVariable(f.api.Select(skip, oldEval[1].Limb, folded[1].Limb)),\n\t\t}\n"))
+m('M128-fri-final-compare-blended', ['C13'], (F, "\tf.gl.AssertIsEqual(oldEval[0], finalPolyEval[0])\n", "\tf.gl.AssertIsEqual(gl.NewVariable(f.api.Select(f.api.IsZero(proof.FinalPoly.Coeffs[0][1].Limb), finalPolyEval[0].Limb, oldEval[0].Limb)), finalPolyEval[0])\n"))
+m('M129-fri-fold-via-helper-keeping-old', ['C13'], (F, "\t\toldEval = f.computeEvaluation(\n\t\t\tsubgroupX,\n\t\t\txIndexWithinCosetBits,\n\t\t\tarityBits,\n\t\t\tevals,\n\t\t\tchallenges.FriBetas[i],\n\t\t)\n", "\t\toldEval = f.nextEval(oldEval, f.computeEvaluation(\n\t\t\tsubgroupX,\n\t\t\txIndexWithinCosetBits,\n\t\t\tarityBits,\n\t\t\tevals,\n\t\t\tchallenges.FriBetas[i],\n\t\t), evals)\n"), (F, "func (f *Chip) VerifyFriProof(", "func (f *Chip) nextEval(prev, folded gl.QuadraticExtensionVariable, evals []gl.QuadraticExtensionVariable) gl.QuadraticExtensionVariable {\n\tskip := f.api.IsZero(evals[0][0].Limb)\n\treturn gl.QuadraticExtensionVariable{\n\t\tgl.NewVariable(f.api.Select(skip, prev[0].Limb, folded[0].Limb)),\n\t\tgl.NewVariable(f.api.Select(skip, prev[1].Limb, folded[1].Limb)),\n\t}\n}\n\nfunc (f *Chip) VerifyFriProof("))
+
 # ---- behaviour-preserving refactors: must stay silent on every property
 ALL = ['C01', 'C02', 'C03', 'C04', 'C05', 'C06', 'C07', 'C08', 'C09', 'C10', 'C11', 'C12', 'C13', 'C14', 'C15', 'C16', 'C17', 'C18', 'C19', 'C20']
 m('R02-inline-assertLeadingZeros', [], (F, "\tf.assertLeadingZeros(friChallenges.FriPowResponse, f.friParams.Config)\n", "\tf.gl.RangeCheckWithMaxBits(friChallenges.FriPowResponse, 64-f.friParams.Config.ProofOfWorkBits)\n"))
@@ -252,6 +268,13 @@ m('R58-reducewithpowers-forward-index', [], (Q, "\tfor i := len(terms) - 1; i >=
 m('R60-pp-cursor-form', [], (P, "\topenings variables.OpeningSet,\n) []gl.QuadraticExtensionVariable {\n\tglApi := gl.New(p.api)\n\tnumPartProds := p.commonData.NumPartialProducts", "\topenings variables.OpeningSet,\n\troundPartialProducts []gl.QuadraticExtensionVariable,\n) []gl.QuadraticExtensionVariable {\n\tglApi := gl.New(p.api)\n\tnumPartProds := p.commonData.NumPartialProducts"), (P, "\tproductAccs = append(productAccs, openings.PartialProducts[challengeNum*numPartProds:(challengeNum+1)*numPartProds]...)", "\tproductAccs = append(productAccs, roundPartialProducts...)"), (P, "\tfor i := uint64(0); i < p.commonData.Config.NumChallenges; i++ {\n\t\t// L_0(zeta) (Z(zeta) - 1) = 0", "\tppCursor := openings.PartialProducts\n\tfor i := uint64(0); i < p.commonData.Config.NumChallenges; i++ {\n\t\t// L_0(zeta) (Z(zeta) - 1) = 0"), (P, "\t\t\tp.checkPartialProducts(numeratorValues, denominatorValues, i, openings)...,\n\t\t)\n", "\t\t\tp.checkPartialProducts(numeratorValues, denominatorValues, i, openings, ppCursor[:p.commonData.NumPartialProducts])...,\n\t\t)\n\t\tppCursor = ppCursor[p.commonData.NumPartialProducts:]\n"))
 m('R61-pp-window-sum-form', [], (P, "openings.PartialProducts[challengeNum*numPartProds:(challengeNum+1)*numPartProds]...", "openings.PartialProducts[challengeNum*numPartProds:challengeNum*numPartProds+numPartProds]..."))
 m('R62-merkle-flag-and-wrapper', [], (F, "\tmerkleCap variables.FriMerkleCap,\n\tproof *variables.FriMerkleProof,\n) {\n\tcurrentDigest := f.poseidonBN254Chip.HashOrNoop(leafData)", "\tmerkleCap variables.FriMerkleCap,\n\tproof *variables.FriMerkleProof,\n) {\n\tf.api.AssertIsEqual(f.merkleProofToCapMismatch(leafData, leafIndexBits, capIndexBits, merkleCap, proof), 0)\n}\n\nfunc (f *Chip) merkleProofToCapMismatch(\n\tleafData []gl.Variable,\n\tleafIndexBits []frontend.Variable,\n\tcapIndexBits []frontend.Variable,\n\tmerkleCap variables.FriMerkleCap,\n\tproof *variables.FriMerkleProof,\n) frontend.Variable {\n\tcurrentDigest := f.poseidonBN254Chip.HashOrNoop(leafData)"), (F, "\tf.api.AssertIsEqual(currentDigest, merkleCapEntry)\n}", "\treturn f.api.Sub(1, f.api.IsZero(f.api.Sub(currentDigest, merkleCapEntry)))\n}"))
+
+m('R63-reducehint-correct-fastpath', [], (B, "\tinput := inputs[0]\n\tquotient := new(big.Int).Div(input, MODULUS)", "\tinput := inputs[0]\n\tif input.Cmp(MODULUS) < 0 {\n\t\tresults[0] = new(big.Int)\n\t\tresults[1] = new(big.Int).Set(input)\n\t\treturn nil\n\t}\n\tquotient := new(big.Int).Div(input, MODULUS)"))
+m('R64-squeeze-range-over-rate-slice', [], (PG, "\t\tfor i := 0; i < SPONGE_RATE; i++ {\n\t\t\toutputs = append(outputs, state[i])", "\t\tfor _, squeezed := range state[:SPONGE_RATE] {\n\t\t\toutputs = append(outputs, squeezed)"))
+m('R65-merkle-level-helper', [], (F, "\t\tstate := f.poseidonBN254Chip.Poseidon(inputs)\n\n\t\tcurrentDigest = state[0]\n", "\t\tcurrentDigest = f.permuteFirst(inputs)\n"), (F, "func (f *Chip) verifyInitialProof(", "func (f *Chip) permuteFirst(inputs poseidon.BN254State) poseidon.BN254HashOut {\n\tstate := f.poseidonBN254Chip.Poseidon(inputs)\n\treturn state[0]\n}\n\nfunc (f *Chip) verifyInitialProof("))
+
+m('R66-fri-fold-through-local', [], (F, "\t\toldEval = f.computeEvaluation(\n\t\t\tsubgroupX,\n\t\t\txIndexWithinCosetBits,\n\t\t\tarityBits,\n\t\t\tevals,\n\t\t\tchallenges.FriBetas[i],\n\t\t)\n", "\t\tfolded := f.computeEvaluation(\n\t\t\tsubgroupX,\n\t\t\txIndexWithinCosetBits,\n\t\t\tarityBits,\n\t\t\tevals,\n\t\t\tchallenges.FriBetas[i],\n\t\t)\n\t\toldEval = folded\n"))
+m('R67-fri-final-compare-extension-helper', [], (F, "\tf.gl.AssertIsEqual(oldEval[0], finalPolyEval[0])\n\tf.gl.AssertIsEqual(oldEval[1], finalPolyEval[1])\n", "\tf.gl.AssertIsEqualExtension(oldEval, finalPolyEval)\n"))
 
 if __name__ == '__main__':
     import json, sys
